@@ -614,6 +614,39 @@ def run(ctx):
                                   signature={"kind": "thrift_layer_simple", "proto": P.name, "label": label})
                 else:
                     stats["simple_answered" if o.get("reply") else "simple_closed"] += 1
+        # ---- TJSONProtocol (no Coq model; direct oracle only): containers announcing far more elements than the message
+        # could hold, truncated at every point, deep nesting
+        class _J:
+            name = "json"
+        jmsgs = []
+        for big_n in (5000, 104857600, 2147483647):
+            jmsgs += [b'[1,"fill",1,0,{"1":{"rec":{"1":{"lst":["str",%d' % big_n,
+                      b'[1,"fill",1,0,{"1":{"rec":{"2":{"map":["str","str",%d,{' % big_n,
+                      b'[1,"fill",1,0,{"1":{"rec":{"3":{"set":["i64",%d' % big_n,
+                      b'[1,"fill",1,0,{"2":{"lst":["i16",%d' % big_n,
+                      b'[1,"grid",1,0,{"1":{"lst":["lst",%d,["tf",%d' % (big_n, big_n),
+                      b'[1,"nosuch",1,0,{"9":{"lst":["str",%d' % big_n]
+        whole = b'[1,"fill",1,0,{"1":{"rec":{"1":{"lst":["str",2,"a","b"]},"7":{"i32":5}}},"2":{"lst":["i16",1,3]}}]'
+        jmsgs += [whole[:k] for k in range(0, len(whole) + 1, 3)]
+        jmsgs += [b'[1,"walk",1,0,{"1":{"rec":' + b'{"1":{"rec":' * k for k in (10, 63, 64, 65, 500, 20000)]
+        jobs_ = run_payloads(lb, skey, _J, [HEADER + m for m in jmsgs])
+        for m, o in zip(jmsgs, jobs_):
+            stats["json_payloads"] += 1
+            payload = HEADER + m
+            bound = ALLOC_BASE + ALLOC_PER_BYTE * len(payload)
+            what = None
+            if o.get("died"):
+                what = "the process died: " + o["died"][-300:]
+            elif o.get("hang"):
+                what = "no outcome within the watchdog"
+            elif o.get("alloc", 0) > bound:
+                what = "allocated %d bytes for a message of %d bytes (bound %d)" % (o["alloc"], len(payload), bound)
+            if what is not None:
+                oracle_failures += 1
+                ctx.violation("C05 thrift layer (generated processor, json): %s" % what,
+                              {"proto": "json", "payload": m.decode("latin1")[:300], "payload_len": len(payload), "service": skey,
+                               "observed": {k2: (v if not isinstance(v, str) else v[:300]) for k2, v in o.items()}},
+                              signature={"kind": "thrift_layer_oracle", "proto": "json"})
         # ---- correspondence: the Coq model replays every payload
         CH = 400
         cases, metas = [], []
